@@ -1723,27 +1723,61 @@ class Engine:
         return lin(("op", name, (a2, b2)))
 
     def pct_format(self, tmpl, args, st, node):
-        txt = tmpl.text()
-        if txt is None:
+        """template % values: the same bookkeeping as template.format(*values)"""
+        def conv(s_):
+            out = []
+            for x in s_.p:
+                if x[0] == "lit":
+                    out.extend(pct_items(x[1]))
+                elif x[0] == "rep":
+                    out.append(("rep", tuple(conv(x[1])), x[2]))
+                elif x[0] == "str":
+                    out.append(("sub", x[1]))
+                else:
+                    out.append(("done", x))
+            return out
+        items = conv(tmpl)
+        if isinstance(args, tuple) and args[:1] == ("tuple",):
+            vals = list(args[1])
+        elif isinstance(args, tuple) and args[:1] == ("op",) and args[1] in ("tuple", "list") and len(args[2]) == 1:
+            vals = [("star", args[2][0])]
+        else:
+            vals = [args]
+        if not all(it[0] in ("text", "field", "rep", "done") for it in items):
             return lin(("op", "%", (tmpl, args)))
-        items = pct_items(txt)
-        vals = list(args[1]) if isinstance(args, tuple) and args and args[0] == "tuple" else [args]
         argnodes = None
         if node is not None and isinstance(getattr(node, "right", None), ast.Tuple):
             argnodes = node.right.elts
         elif node is not None and getattr(node, "right", None) is not None:
             argnodes = [node.right]
+        nargs = Lin()
+        for a in vals:
+            nargs = nargs + (self.length(a[1], st) if isinstance(a, tuple) and a[:1] == ("star",) else 1)
         parts = []
-        i = 0
+        state = {"i": 0, "starred": False}
         for it in items:
             if it[0] == "text":
                 parts.append(("lit", it[1]))
-            else:
-                v = vals[i] if i < len(vals) else None
-                role = role_of(argnodes[i]) if argnodes and i < len(argnodes) else "expr"
+            elif it[0] == "field":
+                v, role = None, "expr"
+                i = state["i"]
+                state["i"] += 1
+                if not state["starred"] and i < len(vals):
+                    if isinstance(vals[i], tuple) and vals[i][:1] == ("star",):
+                        state["starred"] = True
+                        v = ("elem", vals[i][1], Lin())
+                    else:
+                        v = vals[i]
+                        role = role_of(argnodes[i]) if argnodes and i < len(argnodes) else "expr"
                 parts.append(("fv", it[1].canon(), v, role))
-                i += 1
-        return S(parts)
+            elif it[0] == "rep":
+                state["starred"] = True
+                parts.append(("rep", S(tuple(("lit", j[1]) if j[0] == "text" else ("fv", j[1].canon(), None, "expr") for j in it[1] if j[0] in ("text", "field"))), it[2]))
+            else:
+                parts.append(it[1])
+        res = S(parts)
+        self.emit(st, "format", node, template=tmpl, items=items, args=vals, nfields=count_fields(items), nargs=nargs, value=res)
+        return res
 
     def ev(self, node, st):
         if node is None:
